@@ -166,7 +166,7 @@ def run_ref(model: onnx.ModelProto, feeds: dict):
     return [ev.run(None, {k: v for k, v in f.items() if k in names}) for f in feeds]
 
 
-def same_outputs(a, b, exact: bool) -> str | None:
+def same_outputs(a, b, exact: bool, tol=None) -> str | None:
     """None if equal, else a description."""
     if len(a) != len(b):
         return f"number of outputs {len(a)} vs {len(b)}"
@@ -179,7 +179,7 @@ def same_outputs(a, b, exact: bool) -> str | None:
             return f"output {i}: shape {list(u.shape)} vs {list(v.shape)}"
         if u.dtype.kind in "fc":
             uu, vv = u.astype(np.float64), v.astype(np.float64)
-            ok = np.array_equal(uu, vv, equal_nan=True) if exact else np.allclose(uu, vv, rtol=2e-4, atol=2e-5, equal_nan=True)
+            ok = np.array_equal(uu, vv, equal_nan=True) if exact else np.allclose(uu, vv, rtol=(tol or (2e-4, 2e-5))[0], atol=(tol or (2e-4, 2e-5))[1], equal_nan=True)
         else:
             ok = np.array_equal(u, v)
         if not ok:
@@ -187,7 +187,7 @@ def same_outputs(a, b, exact: bool) -> str | None:
     return None
 
 
-def oracle(before: onnx.ModelProto, after: onnx.ModelProto, feeds: list, exact: bool, prefer: str = "ort") -> tuple[str, str]:
+def oracle(before: onnx.ModelProto, after: onnx.ModelProto, feeds: list, exact: bool, prefer: str = "ort", tol=None) -> tuple[str, str]:
     """(status, detail).  status: same | differ | after_error | before_invalid.
 
     onnxruntime (optimisations off) first; when it cannot run the *original*, `onnx.reference` is used for
@@ -205,7 +205,7 @@ def oracle(before: onnx.ModelProto, after: onnx.ModelProto, feeds: list, exact: 
         except Exception as e:
             return "after_error", f"{name}: original runs, rewritten model fails: {str(e)[:200]}".replace("\n", " ")
         for k, (x, y) in enumerate(zip(ob, oa)):
-            d = same_outputs(x, y, exact)
+            d = same_outputs(x, y, exact, tol)
             if d is not None:
                 return "differ", f"{name}: input #{k}: {d}"
         return "same", name
